@@ -160,6 +160,11 @@ func TestVerifC09E2E(t *testing.T) { e2eCases(t, "C09") }
 // observable from outside the process and is not judged).
 func TestVerifC03E2E(t *testing.T) { e2eCases(t, "C03") }
 
+// TestVerifC01E2E: the same runs read as C01 over real QUIC with the complete applications:
+// whenever `thru join` reports success (exit status 0) its output directory must hold
+// exactly the hosted tree; a failed join is not C01's business.
+func TestVerifC01E2E(t *testing.T) { e2eCases(t, "C01") }
+
 func e2eCases(t *testing.T, prop string) {
 	rec := verifkit.NewRecorder(prop, "e2e")
 	defer rec.Flush()
@@ -209,6 +214,10 @@ func e2eCases(t *testing.T, prop string) {
 			desc := fmt.Sprintf("tree %s, total-connections=%d, receiver %d of %d, %d usable local addresses, %.1fs", tree.Describe(), conns, j+1, joins, nAddrs, dur.Seconds())
 			if abandoned > 0 {
 				rec.Class("receiver-skipped-abandoned-connections")
+			}
+			if status != 0 && prop == "C01" {
+				rec.Class("join-not-ok")
+				continue
 			}
 			if status != 0 {
 				sig := "e2e:join-failed"
